@@ -127,6 +127,8 @@ def worker_main(args):
             ctx.inconclusive_because('harness error: %s' % tb[-1500:])
     finally:
         faulthandler.cancel_dump_traceback_later()
+    from vlib import callstyle
+    callstyle.flush(ctx)
     ctx.dump(args.out, reach.snapshot())
 
 
